@@ -6,7 +6,7 @@ keeps living.  The same continuation K is run first on C, then on M, then on P; 
 must be equal bit-for-bit: C == M says the clone behaves like the original, M == P says using the clone did
 not disturb the original.
 
-As built: Extras: all six copy points are reached in both tiers; Thompson bandits that receive their binarizer through add_arm and are then fed non-binary rewards. TreeBandit parameter sets with max_features / random_state (incl. an explicit None). Fork scenario (a second copy goes its own way before the original continues and must then answer like a bandit rebuilt from the history); deepcopy in 3 of 8 cases; millisecond-timestamp column under scale=True.
+As built: Extras: all six copy points are reached in both tiers; Thompson bandits that receive their binarizer through add_arm and are then fed non-binary rewards. TreeBandit parameter sets with max_features / random_state (incl. an explicit None). Fork scenario (a second copy goes its own way before the original continues and must then answer like a bandit rebuilt from the history); deepcopy in 3 of 8 cases; millisecond-timestamp column under scale=True. Round 8: a third of the bandits train and answer with worker threads before the copy is taken; a copy that raises is a violation.
 """
 from mon import env
 import copy
